@@ -197,35 +197,35 @@ func lenLowerBound(rs relSet, key string) int64 {
 
 // audit tables: one line of reason per entry. Keys are "function|construct".
 var c07RawPanics = map[string]string{
-	"goose.Ctx.printGo|panic(go/printer.Fprint(&what,ctx.Fset,node).Error())":                 "printer.Fprint into a bytes.Buffer fails only on malformed syntax trees; the tree came from go/parser and was type-checked",
-	"goose.errorReporter.printField|panic(go/printer.Fprint(&what,r.fset,f.Type).Error())":     "as printGo: printing a type-checked field type into a buffer cannot fail",
-	"goose.errorReporter.printGo|panic(go/printer.Fprint(&what,r.fset,n).Error())":             "as printGo",
-	"goose.Ctx.stmts|panic(\"bad ExprValUsage\")":                                               "the switch covers the three ExprValUsage constants and usage values only come from those constants",
-	"goose.Ctx.ifStmt|panic(\"if statement with unexpected kind of else branch\")":             "go/ast documents IfStmt.Else as *BlockStmt or *IfStmt (nil was tested before)",
-	"goose.Ctx.stmt|panic(\"ExprValLocal usage should always be finalized\")":                  "stmtInBlock returns finalized=true on every path when usage is ExprValLocal",
-	"goose.Ctx.coqRecurFunc|panic(\"type checker doesn't have func\")":                         "the identifier was resolved through types.Info by both callers before",
-	"goose.Ctx.identExpr|panic(\"\")":                                                           "follows a no-return reporter call: unreachable",
-	"goose.stringLitValue|panic(\"unexpected non-string literal\")":                            "partial helper: its call sites are audited",
-	"goose.stringLitValue|panic(\"unexpected string literal value: \" + …)":                    "a string literal accepted by go/parser always unquotes",
-	"goose.sliceElem|panic(fmt.Errorf)":                                                         "partial helper: its call sites are audited",
-	"goose.ptrElem|panic(fmt.Errorf)":                                                           "partial helper: its call sites are audited",
-	"goose.sortedFiles|panic(\"sortedFiles(): fileNames must match fileAsts\")":                "partial helper: its call site is audited",
-	"goose.NewPkgCtx|panic(goose.newPkgCtx(pkg,tr)#1.Error())":                                  "exported constructor kept for API compatibility; the translator's own path uses newPkgCtx and returns the error (R07a: no entry-point path to it from TranslatePackages)",
-	"goose.Ctx.declsOrError$1|panic(recover())":                                                 "re-panic of a non-structured panic value: every source of such a value is one of the audited sites of this rule",
-	"coq.BinaryExpr.Coq|panic(fmt.Sprintf)":                                                     "the notation table covers every BinOp constant (checked under C01 R01a)",
-	"coq.Binding.AddTo|panic(\"no support for destructuring more than 4 return values\")":      "bindings with more than four names are rejected at translation time by defineStmt / multipleAssignStmt (checked below as 'at most four names')",
+	"goose.Ctx.printGo|panic(go/printer.Fprint(&what,ctx.Fset,node).Error())":              "printer.Fprint into a bytes.Buffer fails only on malformed syntax trees; the tree came from go/parser and was type-checked",
+	"goose.errorReporter.printField|panic(go/printer.Fprint(&what,r.fset,f.Type).Error())": "as printGo: printing a type-checked field type into a buffer cannot fail",
+	"goose.errorReporter.printGo|panic(go/printer.Fprint(&what,r.fset,n).Error())":         "as printGo",
+	"goose.Ctx.stmts|panic(\"bad ExprValUsage\")":                                          "the switch covers the three ExprValUsage constants and usage values only come from those constants",
+	"goose.Ctx.ifStmt|panic(\"if statement with unexpected kind of else branch\")":         "go/ast documents IfStmt.Else as *BlockStmt or *IfStmt (nil was tested before)",
+	"goose.Ctx.stmt|panic(\"ExprValLocal usage should always be finalized\")":              "stmtInBlock returns finalized=true on every path when usage is ExprValLocal",
+	"goose.Ctx.coqRecurFunc|panic(\"type checker doesn't have func\")":                     "the identifier was resolved through types.Info by both callers before",
+	"goose.Ctx.identExpr|panic(\"\")":                                                      "follows a no-return reporter call: unreachable",
+	"goose.stringLitValue|panic(\"unexpected non-string literal\")":                        "partial helper: its call sites are audited",
+	"goose.stringLitValue|panic(\"unexpected string literal value: \" + …)":                "a string literal accepted by go/parser always unquotes",
+	"goose.sliceElem|panic(fmt.Errorf)":                                                    "partial helper: its call sites are audited",
+	"goose.ptrElem|panic(fmt.Errorf)":                                                      "partial helper: its call sites are audited",
+	"goose.sortedFiles|panic(\"sortedFiles(): fileNames must match fileAsts\")":            "partial helper: its call site is audited",
+	"goose.NewPkgCtx|panic(goose.newPkgCtx(pkg,tr)#1.Error())":                             "exported constructor kept for API compatibility; the translator's own path uses newPkgCtx and returns the error (R07a: no entry-point path to it from TranslatePackages)",
+	"goose.Ctx.declsOrError$1|panic(recover())":                                            "re-panic of a non-structured panic value: every source of such a value is one of the audited sites of this rule",
+	"coq.BinaryExpr.Coq|panic(fmt.Sprintf)":                                                "the notation table covers every BinOp constant (checked under C01 R01a)",
+	"coq.Binding.AddTo|panic(\"no support for destructuring more than 4 return values\")":  "bindings with more than four names are rejected at translation time by defineStmt / multipleAssignStmt (checked below as 'at most four names')",
 }
 
 var c07Asserts = map[string]string{
-	"goose.Ctx.arrayType|*go/types.Info.TypeOf(ctx.info,e).(*Array)":                       "go/types: the type of an *ast.ArrayType expression with a length is *types.Array (the branch tested e.Len != nil)",
-	"goose.Ctx.mapType|*go/types.Info.TypeOf(ctx.info,e).Underlying().(*Map)":              "go/types: the type of an *ast.MapType expression is a map type",
-	"goose.Ctx.constDecl|d.Specs[(phi:rangeindex + 1)].(*ValueSpec)":        "go/ast: GenDecl.Tok == CONST implies every spec is *ValueSpec (caller dispatched on Tok)",
-	"goose.Ctx.globalVarDecl|d.Specs[(phi:rangeindex + 1)].(*ValueSpec)":    "go/ast: GenDecl.Tok == VAR implies every spec is *ValueSpec",
-	"goose.Ctx.imports|d[(phi:rangeindex + 1)].(*ImportSpec)":               "go/ast: GenDecl.Tok == IMPORT implies every spec is *ImportSpec",
-	"goose.Ctx.maybeDecls|d.(*GenDecl)#0.Specs[0].(*TypeSpec)":              "go/ast: GenDecl.Tok == TYPE implies every spec is *TypeSpec",
-	"goose.Ctx.varDeclStmt|s.Decl.(*GenDecl)#0.Specs[0].(*ValueSpec)":       "go/ast: GenDecl.Tok == VAR (tested above) implies *ValueSpec",
-	"goose.Ctx.coqRecurFunc|ctx.info.Uses[e]#0.(*Func)":                     "callers pass the identifier of a function (identExpr tested *types.Func) or of a method selected on a typed receiver",
-	"goose.Ctx.packageMethod|f.X.(*Ident)":                                  "getType failed for f.X, so f.X denotes a package; a package qualifier is an identifier",
+	"goose.Ctx.arrayType|*go/types.Info.TypeOf(ctx.info,e).(*Array)":          "go/types: the type of an *ast.ArrayType expression with a length is *types.Array (the branch tested e.Len != nil)",
+	"goose.Ctx.mapType|*go/types.Info.TypeOf(ctx.info,e).Underlying().(*Map)": "go/types: the type of an *ast.MapType expression is a map type",
+	"goose.Ctx.constDecl|d.Specs[(phi:rangeindex + 1)].(*ValueSpec)":          "go/ast: GenDecl.Tok == CONST implies every spec is *ValueSpec (caller dispatched on Tok)",
+	"goose.Ctx.globalVarDecl|d.Specs[(phi:rangeindex + 1)].(*ValueSpec)":      "go/ast: GenDecl.Tok == VAR implies every spec is *ValueSpec",
+	"goose.Ctx.imports|d[(phi:rangeindex + 1)].(*ImportSpec)":                 "go/ast: GenDecl.Tok == IMPORT implies every spec is *ImportSpec",
+	"goose.Ctx.maybeDecls|d.(*GenDecl)#0.Specs[0].(*TypeSpec)":                "go/ast: GenDecl.Tok == TYPE implies every spec is *TypeSpec",
+	"goose.Ctx.varDeclStmt|s.Decl.(*GenDecl)#0.Specs[0].(*ValueSpec)":         "go/ast: GenDecl.Tok == VAR (tested above) implies *ValueSpec",
+	"goose.Ctx.coqRecurFunc|ctx.info.Uses[e]#0.(*Func)":                       "callers pass the identifier of a function (identExpr tested *types.Func) or of a method selected on a typed receiver",
+	"goose.Ctx.packageMethod|f.X.(*Ident)":                                    "getType failed for f.X, so f.X denotes a package; a package qualifier is an identifier",
 }
 
 // c07Indices: audited constant indices. The entry applies only where a fact containing Need holds,
@@ -237,9 +237,9 @@ var c07Indices = map[string]guardedReason{
 }
 
 var c07Helpers = map[string]string{
-	"goose.Ctx.callExpr|sliceElem(*go/types.Info.TypeOf(ctx.info,s.Args[0]).Underlying())":                      "Go typing: the first argument of the predeclared append has a slice underlying type (identifier resolved to the predeclared object)",
-	"goose.Ctx.imports|stringLitValue(d[(phi:rangeindex + 1)].(*ImportSpec).Path)":               "go/ast: ImportSpec.Path is a STRING literal",
-	"goose.TranslationConfig.translatePackage|sortedFiles(pkg.CompiledGoFiles,pkg.Syntax)":       "go/packages fills CompiledGoFiles and Syntax in parallel under NeedCompiledGoFiles|NeedSyntax (the configured mode, C17 R17e) for a package without load errors (tested just before)",
+	"goose.Ctx.callExpr|sliceElem(*go/types.Info.TypeOf(ctx.info,s.Args[0]).Underlying())": "Go typing: the first argument of the predeclared append has a slice underlying type (identifier resolved to the predeclared object)",
+	"goose.Ctx.imports|stringLitValue(d[(phi:rangeindex + 1)].(*ImportSpec).Path)":         "go/ast: ImportSpec.Path is a STRING literal",
+	"goose.TranslationConfig.translatePackage|sortedFiles(pkg.CompiledGoFiles,pkg.Syntax)": "go/packages fills CompiledGoFiles and Syntax in parallel under NeedCompiledGoFiles|NeedSyntax (the configured mode, C17 R17e) for a package without load errors (tested just before)",
 }
 
 func panicKey(p *Prog, f *ssa.Function, pn *ssa.Panic) string {
@@ -453,7 +453,7 @@ func c07Audit(p *Prog, r *Report, prefixed *ssa.Function) {
 					}
 					r.Sites++
 					key := panicKey(p, f, x)
-					if why, ok := c07RawPanics[key]; ok {
+					if why, ok := auditFind(c07RawPanics, key); ok {
 						r.OK("R07b", "raw "+key, instrPos(in), "audited: "+why)
 					} else {
 						r.Unknown("R07b", "raw "+key, instrPos(in), "unaudited raw panic: it escapes the per-declaration recover (which re-panics non-structured values) and aborts goose with a stack trace")
@@ -469,7 +469,7 @@ func c07Audit(p *Prog, r *Report, prefixed *ssa.Function) {
 					guard := sk(x.X) + ".(" + types.TypeString(x.AssertedType, qualNone) + ")#1 == true"
 					if rs[guard] {
 						r.OK("R07b", "assert "+key, instrPos(in), "dominated by a successful comma-ok assertion")
-					} else if why, ok := c07Asserts[key]; ok {
+					} else if why, ok := auditFind(c07Asserts, key); ok {
 						r.OK("R07b", "assert "+key, instrPos(in), "audited: "+why)
 					} else {
 						r.Unknown("R07b", "assert "+key, instrPos(in), "single-result type assertion without a dominating type test and without an audited invariant: a value of another dynamic type aborts goose")
@@ -490,7 +490,7 @@ func c07Audit(p *Prog, r *Report, prefixed *ssa.Function) {
 						r.OK("R07b", "index "+key, instrPos(in), fmt.Sprintf("length facts give len >= %d", lenLowerBound(rs, sk(x.X))))
 					} else if why := indexInvariant(x, k, rs); why != "" {
 						r.OK("R07b", "index "+key, instrPos(in), why)
-					} else if g, ok := c07Indices[key]; ok && hasFactContaining(rs, g.Need) {
+					} else if g, ok := auditFind(c07Indices, key); ok && hasFactCanon(rs, g.Need) {
 						r.OK("R07b", "index "+key, instrPos(in), "audited: "+g.Why)
 					} else {
 						r.Unknown("R07b", "index "+key, instrPos(in), fmt.Sprintf("constant index %d without a dominating length bound (facts: %v) and without an audited arity invariant", k, relList(rs)))
@@ -504,7 +504,7 @@ func c07Audit(p *Prog, r *Report, prefixed *ssa.Function) {
 							as = append(as, sk(a))
 						}
 						key := fmt.Sprintf("%s|%s(%s)", FuncName(f), cal.Name(), strings.Join(as, ","))
-						if why, ok := c07Helpers[key]; ok {
+						if why, ok := auditFind(c07Helpers, key); ok {
 							r.OK("R07b", "partial "+key, instrPos(in), "audited: "+why)
 						} else if g := helperGuard(p, f, x, at(in)); g != "" {
 							r.OK("R07b", "partial "+key, instrPos(in), g)
@@ -522,7 +522,7 @@ func c07Audit(p *Prog, r *Report, prefixed *ssa.Function) {
 							rs := at(in)
 							if rs["nil != "+sk(recv)] || rs[sk(recv)+" != nil"] {
 								r.OK("R07b", "nilpkg "+key, instrPos(in), "dominated by a nil test of the package")
-							} else if why, ok := c07NilPkg[key]; ok {
+							} else if why, ok := auditFind(c07NilPkg, key); ok {
 								r.OK("R07b", "nilpkg "+key, instrPos(in), "audited: "+why)
 							} else {
 								r.Unknown("R07b", "nilpkg "+key, instrPos(in), "Object.Pkg() is nil for predeclared objects (error, builtin types); dereferenced without a nil test (facts: "+strings.Join(relList(rs), "; ")+")")
@@ -563,14 +563,12 @@ func indexInvariant(x *ssa.IndexAddr, k int64, rs relSet) string {
 		}
 	}
 	if isArgs {
-		for f := range rs {
-			if i := strings.Index(f, ".isBuiltin("); i >= 0 && strings.HasSuffix(f, " == true") {
-				for name, n := range builtinMinArgs {
-					if strings.Contains(f, ",\""+name+"\")") && n > k {
-						return fmt.Sprintf("Go typing: a call of the predeclared %s has at least %d argument(s) (the identifier was resolved to the predeclared object)", name, n)
-					}
-				}
+		for _, name := range curProg.resolvedBuiltinNames(rs) {
+			if n, ok := builtinMinArgs[name]; ok && n > k {
+				return fmt.Sprintf("Go typing: a call of the predeclared %s has at least %d argument(s) (the identifier was resolved to the predeclared object)", name, n)
 			}
+		}
+		for f := range rs {
 			if strings.Contains(f, ".IsType(") && strings.HasSuffix(f, " == true") && k == 0 {
 				return "Go typing: a conversion T(x) has exactly one argument"
 			}
@@ -867,7 +865,7 @@ func c07Aggregation(p *Prog, r *Report) {
 var astNilable = map[string]bool{
 	"Field.Tag": true, "Field.Doc": true, "Field.Comment": true,
 	"CompositeLit.Type": true,
-	"SliceExpr.Low": true, "SliceExpr.High": true, "SliceExpr.Max": true,
+	"SliceExpr.Low":     true, "SliceExpr.High": true, "SliceExpr.Max": true,
 	"FuncDecl.Recv": true, "FuncDecl.Body": true, "FuncDecl.Doc": true,
 	"FuncType.TypeParams": true, "FuncType.Results": true,
 	"IfStmt.Init": true, "IfStmt.Else": true,
@@ -875,7 +873,7 @@ var astNilable = map[string]bool{
 	"ForStmt.Init": true, "ForStmt.Cond": true, "ForStmt.Post": true,
 	"RangeStmt.Key": true, "RangeStmt.Value": true,
 	"BranchStmt.Label": true,
-	"ImportSpec.Name": true, "ImportSpec.Doc": true, "ImportSpec.Comment": true,
+	"ImportSpec.Name":  true, "ImportSpec.Doc": true, "ImportSpec.Comment": true,
 	"ValueSpec.Type": true, "ValueSpec.Doc": true, "ValueSpec.Comment": true,
 	"TypeSpec.TypeParams": true, "TypeSpec.Doc": true, "TypeSpec.Comment": true,
 	"GenDecl.Doc": true, "File.Doc": true,
@@ -1050,7 +1048,7 @@ func c07NilFields(p *Prog, r *Report) {
 				}
 				if guarded {
 					r.OK("R07b", key, instrPos(u.In), "dominated by a nil test (or successful type test) of "+vk)
-				} else if why, ok := c07NilFieldsTable[key]; ok {
+				} else if why, ok := auditFind(c07NilFieldsTable, key); ok {
 					r.OK("R07b", key, instrPos(u.In), "audited: "+why)
 				} else {
 					r.Unknown("R07b", key, instrPos(u.In), fmt.Sprintf("go/ast documents %s.%s as possibly nil; it is used here (%s) without a dominating nil test (facts: %v)", o.Obj().Name(), fld, u.Why, relList(rs)))
@@ -1070,8 +1068,8 @@ func c07NilFields(p *Prog, r *Report) {
 }
 
 var c07NilFieldsTable = map[string]string{
-	"goose.Ctx.coqType|nil-able Ellipsis.Elt: passed to goose.Ctx.coqType":               "an *ast.Ellipsis reached by coqType is the type of a variadic parameter, whose Elt is its element type; the nil-Elt form occurs only as ArrayType.Len ([...]T), which no caller passes to coqType (arrayType only tests e.Len != nil)",
-	"goose.Ctx.ifStmt|nil-able IfStmt.Else: passed to goose.errorReporter.futureWork":    "reached only when len(Else.List) > 0, and the local Else block is non-empty only if it was taken from a non-nil s.Else (data invariant through the local variable)",
+	"goose.Ctx.coqType|nil-able Ellipsis.Elt: passed to goose.Ctx.coqType":                "an *ast.Ellipsis reached by coqType is the type of a variadic parameter, whose Elt is its element type; the nil-Elt form occurs only as ArrayType.Len ([...]T), which no caller passes to coqType (arrayType only tests e.Len != nil)",
+	"goose.Ctx.ifStmt|nil-able IfStmt.Else: passed to goose.errorReporter.futureWork":     "reached only when len(Else.List) > 0, and the local Else block is non-empty only if it was taken from a non-nil s.Else (data invariant through the local variable)",
 	"goose.Ctx.mapRangeStmt|nil-able RangeStmt.Key: passed to goose.errorReporter.nope":   "reached only when getIdentOrAnonymous(s.Key) returned ok=false, and that helper returns ok=true for a nil expression",
 	"goose.Ctx.mapRangeStmt|nil-able RangeStmt.Value: passed to goose.errorReporter.nope": "reached only when getIdentOrAnonymous(s.Value) returned ok=false, and that helper returns ok=true for a nil expression",
 }
